@@ -303,7 +303,36 @@ def run_C08(ctx, rng, tier, res, known):
         if i % max(1, len(lines) // 5) == 0:
             res.samples.append(dict(case=line[:200], impl_release=impl[(ctx.cfgs[0], "release")][i], impl_dbg=impl[(ctx.cfgs[0], ctx.profiles[-1])][i]))
     res.extra["outcomes"] = dict(value=nval, panic=npanic)
+    if tier == "thorough":
+        miri_pass(ctx, res, [l for l in lines if len(l) < 2500][:120] + miri_valid_slow_cases(rng), ("std", "std+alloc"))
     return {}
+
+def miri_valid_slow_cases(rng):
+    out = []
+    for f in ("f32", "f64"):
+        for line, fam in gens.gen_boundary(rng, f, 25) + gens.gen_bigint_ties(rng, f, 15):
+            out.append(line.split(" ## ")[0])
+    return out
+
+def miri_pass(ctx, res, lines, cfgs):
+    """supporting check (not the proof): the same cases under Miri's default aliasing model; any
+    Undefined Behavior report is a violation with the case as replay; outputs must equal the dbg build's"""
+    n = 0
+    for c in cfgs:
+        if c not in ctx.cfgs:
+            continue
+        out, ub = run_miri(c, lines)
+        ref = run_impl(c, "dbg", lines)
+        n += len(out)
+        for i, o in enumerate(out):
+            if i < len(ref) and o != ref[i]:
+                res.drift.append(dict(case=lines[i][:300], cfg=c, note="Miri run differs from the dbg build", miri=o, dbg=ref[i]))
+        if ub is not None:
+            if ub.get("is_ub"):
+                res.viol.append(("miri-undefined-behaviour", dict(case=ub["case"], cfg=c, message=ub["message"])))
+            else:
+                res.fault.append(dict(why="miri run failed", cfg=c, message=ub["message"][:300]))
+    res.extra["miri_cases"] = res.extra.get("miri_cases", 0) + n
 
 # ------------------------------------------------------------------ C09
 def run_C09(ctx, rng, tier, res, known):
@@ -594,6 +623,8 @@ def run_C13(ctx, rng, tier, res, known):
                 res.nontrivial.add(line)
     res.samples.append(dict(case=lines[0][:300]))
     res.samples.append(dict(case=lines[-1]))
+    if tier == "thorough":
+        miri_pass(ctx, res, [l for l in lines if len(l) < 6000][:80], ("std", "std+alloc"))
     return {}
 
 def history_predicate(ops, outs, cap):
@@ -894,6 +925,8 @@ def run_C16(ctx, rng, tier, res, known):
                 elif want is not None and vals[0] != want:
                     res.drift.append(dict(case=line[:300], cfg=c, impl=vals[0], model=want))
                 res.nontrivial.add(line)
+    if tier == "thorough":
+        miri_pass(ctx, res, [l for l in lines if len(l) < 400][:12], ("std",))
     res.samples.append(dict(case=lines[0][:200], shapes="slice, chain(2 splits), filter, VecDeque, lying size_hint, stack poison x2, after 780-digit parse, re-addressed copy, 8 threads"))
     return {}
 
